@@ -103,7 +103,7 @@ Definition pos_records (d : dstm) : Prop :=
 (* ------------------------------------------------------------------ C07 (b): atomicity *)
 (* equal worlds except for is_tracing_enabled and for the toggle decisions (a_toggle) of the
    remaining oracle answers *)
-Definition erase_toggle (a : ans) : ans := mk_ans (a_full a) None (a_newbuf a) (a_inc a).
+Definition erase_toggle (a : ans) : ans := mk_ans (a_full a) None (a_newbuf a) (a_inc a) (a_eager a).
 Definition sim (w w' : world) : Prop :=
   set_enabled (w_c w) true = set_enabled (w_c w') true /\
   map erase_toggle (w_or w) = map erase_toggle (w_or w') /\
